@@ -19,8 +19,8 @@ MANIFEST = dict(cat=LEVEL, ref="DESIGN.md 3.12, 6 (C22)",
          "executed on a populated TurDB database in a watchdogged child process and the outcome class compared with the spec's Allowed = {ok, err}",
     text="for every generated SQL sentence (valid and <=2-mutation near-valid), nesting shape and API call sequence the call returned Ok or Err "
          "within the watchdog bound; listed panic sites / stack overflows are recorded findings. Bounded by the grammar, the feature budget and the sample",
-    note="'all byte strings' is NOT enumerated: only derivations of Grammar.tla and token-level mutations of them; lexer robustness beyond the "
-         "token classes of the grammar is not claimed. Harness profile: release, panic=unwind, overflow-checks off (arithmetic-overflow aborts "
+    note="'all byte strings' is NOT enumerated: only derivations of Grammar.tla, token-level mutations of them, and (Lexical.tla) 59 lexemes of the "
+         "lexer's token classes cut / damaged at every piece boundary in 7 statement contexts; lexer robustness beyond that is not claimed. Harness profile: release, panic=unwind, overflow-checks off (arithmetic-overflow aborts "
          "of a debug build are not observable). Hang = no return within the watchdog on 4..5-row tables")
 
 FIXTURE = [
@@ -88,6 +88,14 @@ def sentence_case(cid, v, src):
     return {"id": cid, "tpl": "std", "ops": [{"k": "exec", "sql": sql}], "src": src, "muts": v.get("muts", 0),
             "allowed": v["allowed"], "trail": trail, "frame": frame, "deep": deep and [deep[1], deep[2]],
             "mutkinds": [t[1] for t in trail if t[0] == "mut"]}
+
+
+def lexical_case(cid, v):
+    """Lexical.tla: the pieces are concatenated WITHOUT separators (the cut points are inside tokens)"""
+    sql = "".join(robust.decode_token(p) for p in v["pieces"])
+    trail = [["lex", v["lex"], v["mut"], v["n"]], ["ctx", v["ctx"], 0]]
+    return {"id": cid, "tpl": "std", "ops": [{"k": "exec", "sql": sql}], "src": "lex", "muts": 0 if v["mut"] == "whole" else 1,
+            "allowed": v["allowed"], "trail": trail, "frame": "lex." + v["ctx"], "deep": None, "mutkinds": [] if v["mut"] == "whole" else ["lex_" + v["mut"]]}
 
 
 def api_case(cid, v, src):
@@ -285,7 +293,7 @@ def run(chk):
         "harness build profile: release, panic=unwind, overflow-checks=off, debug-assertions=off (what a release user executes, except panic=abort)",
         "each case runs on a private copy of a fixture database (t: one column per type, 4 rows; u: 5 rows, PK + UNIQUE + index; e: vectors + HNSW index)",
         "child process per worker, main-thread stack 8 MiB, address space limited to 1 GiB; hang = no return within %d s (confirmed alone with %d s)" % (WATCHDOG_MS // 1000, CONFIRM_MS // 1000),
-        "only derivations of Grammar.tla / ApiCalls.tla and <=2 token-level mutations are explored; arbitrary byte strings are not"]
+        "only derivations of Grammar.tla / ApiCalls.tla, <=2 token-level mutations of them and the lexemes of Lexical.tla cut at their piece boundaries are explored; arbitrary byte strings are not"]
     vlib.build_harness(); chk.mark("build")
 
     # ------------------------------------------------------------------ generation (TLC)
@@ -305,6 +313,8 @@ def run(chk):
                     simulate="num=%d" % (5000 if thorough else 500), seed=chk.seed, extra=["-depth", "200"]),
         "api": dict(module="MC_ApiCalls.tla", cfg=_cfg("Gen_ApiCalls.cfg", ParamTypes=all_types if thorough else '{"int", "text", "null", "vec", "huge"}'),
                     timeout=3000 if thorough else 900, workers=8 if thorough else w),
+        # below the token level: every lexeme of Lexical.tla cut / damaged at every piece boundary, in every context
+        "lex": dict(module="MC_Lexical.tla", cfg=os.path.join(vlib.SPEC, "Gen_Lexical.cfg"), timeout=900, workers=2),
         "apisim": dict(module="MC_ApiCalls.tla", cfg=_cfg("Gen_ApiCalls_sim.cfg", MaxCalls=10), timeout=900, workers=1,
                        simulate="num=%d" % (4000 if thorough else 400), seed=chk.seed, extra=["-depth", "14"]),
     }
@@ -328,6 +338,14 @@ def run(chk):
                 continue
             seen.add(key)
             cases.append(c)
+    gen_counts["lex"] = len(gen["lex"]["emitted"])
+    for v in gen["lex"]["emitted"]:
+        c = lexical_case("l%d" % len(cases), v)
+        key = c["ops"][0]["sql"]
+        if key in seen:
+            continue
+        seen.add(key)
+        cases.append(c)
     api_all = []
     for src in ("api", "apisim"):
         vals = gen[src]["emitted"]
@@ -354,6 +372,7 @@ def run(chk):
     chosen += take(by["val"], lim["val"], lambda c: (c["frame"], c["trail"][-1][0] if c["trail"] else "-"))
     chosen += take(by["mut"], lim["mut"], lambda c: (c["frame"], tuple(c["mutkinds"])))
     chosen += by["sim"]
+    chosen += by["lex"]          # all of them, in both tiers
     chosen_api = take(api_all, 40000 if thorough else 3000, lambda c: (tuple(c["last_sit"]), c["lastk"]))
     allc = chosen + chosen_api
     byid = {c["id"]: c for c in allc}
@@ -406,7 +425,9 @@ def run(chk):
         chk.notes.append("not reproduced when re-run alone (load-dependent, not reported): " + "; ".join(unconfirmed[:8]))
 
     # ------------------------------------------------------------------ non-vacuity
-    plain = [c for c in chosen if c["muts"] == 0 and not c.get("deep")]
+    if len(by["lex"]) < 3000:
+        raise vlib.ToolError("Lexical.tla produced only %d distinct inputs" % len(by["lex"]))
+    plain = [c for c in chosen if c["muts"] == 0 and not c.get("deep") and c["src"] != "lex"]
     plain_ok = sum(1 for c in plain if robust.classify(res[c["id"]])[0] == "ok")
     ratio = plain_ok / max(1, len(plain))
     if ratio < 0.30:
